@@ -27,7 +27,8 @@ CFG = dict(
                  "the slack between requested size and class size is not inspected"],
     min_counts={"any": {"page_returned_to_os": 500, "realloc_small_to_large": 500, "realloc_large_to_small": 300,
                         "drained_to_at_most_five_pages": 300, "block_released_by_another_thread": 100,
-                        "freed_chunk_reused": 500}},
+                        "freed_chunk_reused": 500,
+                        "second_single_threaded_instance_alive_during_threaded_phase": 50}},
 )
 
 META = dict(
